@@ -34,6 +34,8 @@ HEAVY_CASES = True
 
 
 def COST(desc):
+    if desc.get("k") == "tree-op":
+        return 3
     if desc.get("k") == "tree":
         return 40 * desc["n"]
     return desc["n"] ** 2 * (4 if ("evolve" in desc["shard"] or "optimize" in desc["shard"]) else 1)
@@ -41,8 +43,10 @@ def COST(desc):
 
 def BOUND(tier):
     if tier == "quick":
-        return {"families": {"elec": "n=2..3", "two": "n=2..3", "eph": "n=3", "elec1": "n=1"}, "depth": 2, "trees": "plane trees <= 3 nodes (elec, two-component), depth 2, incl. evolve / optimise / truncate"}
-    return {"families": {"elec": "n=1..4", "two": "n=1..4", "eph": "n=2..4", "mixed": "n=3"}, "depth": "3 (n<=2), 2 (n>=3)", "trees": "plane trees <= 4 nodes, depth 2"}
+        return {"families": {"elec": "n=2..3", "two": "n=2..3", "eph": "n=3", "elec1": "n=1"}, "depth": 2, "trees": "plane trees <= 3 nodes (elec, two-component), depth 2, incl. evolve / optimise / truncate",
+                "tree_operators": "3 construction algorithms x trees <= 3 nodes x distributions (2 per occupancy pattern) x every sector x {H, raising sum, raise/lower per dof}"}
+    return {"families": {"elec": "n=1..4", "two": "n=1..4", "eph": "n=2..4", "mixed": "n=3"}, "depth": "3 (n<=2), 2 (n>=3)", "trees": "plane trees <= 4 nodes, depth 2",
+            "tree_operators": "3 construction algorithms x trees <= 3 nodes x every distribution x every sector x {H, raising sum, raise/lower per dof}"}
 
 
 def configs(tier):
@@ -79,6 +83,7 @@ def cases(tier, seed):
                         continue
                     yield {"fam": fam, "n": n, "sector": sec, "depth": 1, "shard": a.name, "prefix": prefix}
     yield from tree_cases(tier)
+    yield from tree_op_cases(tier)
     yield from ctor_cases(tier)
 
 
@@ -268,6 +273,8 @@ def make_invariants(ch):
 
 
 def run_case(desc, seed):
+    if desc.get("k") == "tree-op":
+        return run_tree_op(desc, seed)
     if desc.get("k") == "tree":
         return run_tree(desc, seed)
     if desc.get("k") == "ctor":
@@ -529,6 +536,113 @@ def run_tree(desc, seed):
     return {"nontrivial": transitions > 0 and (maxbond > 1 or len(desc["parent"]) == 1), "states": states, "transitions": transitions,
             "viol": list(viol.values()), "counters": {"tree_aborted_dynamic": aborted}, "outcome": "tree:viol" if viol else "tree:ok",
             "sample": {"desc": desc, "transitions": transitions}}
+
+
+# ----------------------------------------------------------------------------------------------- tree operators, every construction algorithm
+
+def tree_op_cases(tier):
+    """one case = (family, tree, distribution of the basis sets over the nodes incl. several sets per node, construction algorithm): every operator of a
+    small alphabet (conserving Hamiltonian, the raising sum, one raising and one lowering operator per charged degree of freedom) built with that
+    algorithm, applied to a state of every sector"""
+    from mc.space import plane_trees
+    from mc import trees as TR
+    for famname in ("elec3", "eph3", "two3"):
+        fam, m = TREE_FAMS[famname]
+        for N in range(1, 4):
+            for parent in plane_trees(N):
+                dists = list(TR.distributions(m, N))
+                if tier == "quick":
+                    # quick: per occupancy pattern (how many sets on which node) the first and the last distribution
+                    by = {}
+                    for d in dists:
+                        by.setdefault(tuple(len(g) for g in d), []).append(d)
+                    dists = [d for v in by.values() for d in ([v[0], v[-1]] if len(v) > 1 else v)]
+                for dist in dists:
+                    if tier == "quick" and famname == "eph3" and max(len(g) for g in dist) < 2:
+                        continue
+                    for algo in ("qr", "Hopcroft-Karp", "Hungarian"):
+                        yield {"k": "tree-op", "fam": famname, "parent": parent, "groups": [list(g) for g in dist], "n": N, "algo": algo, "shard": "tree-op"}
+
+
+def run_tree_op(desc, seed):
+    from checks import c11_ttns as C11
+    from mc import trees as TR
+    from mc.ref.dense import sector_projector
+    from renormalizer.model import Op
+    from renormalizer.tn import TTNO
+    fam, m = TREE_FAMS[desc["fam"]]
+    viol = {}
+    algo = desc["algo"]
+    tag = f"[tree operator, {desc['fam']} parent={desc['parent']} groups={desc['groups']} algo={algo}]"
+
+    def add(sig, msg):
+        if sig not in viol:
+            viol[sig] = {"sig": sig, "msg": msg}
+    napplied = 0
+    c = None
+    for sec in sectors(fam, m):
+        d = dict(desc, sector=sec)
+        try:
+            c = C11.make_ctx(d, seed)
+        except FloatingPointError:
+            continue
+        sig_list = [np.asarray(b.sigmaqn) for b in c.basis]
+        ops = {"H": (c.h_terms, np.zeros(len(sec), dtype=int)), "P": (c.r_terms, np.array(raising_charge(fam)))}
+        for i, b in enumerate(c.basis):
+            if fam == "two":
+                q = np.asarray(b.sigmaqn)[1] - np.asarray(b.sigmaqn)[0]
+                ops[f"raise[{i}]"] = ([Op("sigma_-", b.dofs[0], 0.8, qn=[q.tolist()])], q)
+                ops[f"lower[{i}]"] = ([Op("sigma_+", b.dofs[0], 0.8, qn=[(-q).tolist()])], -q)
+            elif b.is_electron:
+                ops[f"raise[{i}]"] = ([Op(r"a^\dagger", b.dofs[0], 0.8)], np.array([1]))
+                ops[f"lower[{i}]"] = ([Op("a", b.dofs[0], 0.8)], np.array([-1]))
+        for oname, (terms, charge) in ops.items():
+            if not terms:
+                continue
+            try:
+                O = TTNO(c.tree, terms, algo=algo)
+                Od = np.asarray(O.todense(c.order))
+            except Exception as e:
+                add(f"C06:tree-op:construction-exception:{type(e).__name__}", f"{tag} operator {oname}: {e!r}")
+                continue
+            if np.any(np.asarray(O.qntot) != charge):
+                add(f"C06:tree-op:qntot:{algo}", f"{tag} operator {oname}: stored qntot {np.asarray(O.qntot).tolist()}, the operator changes the quantum number by {charge.tolist()}")
+            want = np.asarray(sec) + charge
+            mask = sector_projector(sig_list, want)
+            try:
+                out = O.apply(c.a)
+                dd = TR.dense_state(out, c.order)
+            except Exception as e:
+                add(f"C06:tree-op:apply-exception:{type(e).__name__}:{algo}", f"{tag} operator {oname} on sector {sec}: {e!r}")
+                continue
+            napplied += 1
+            ref = Od @ c.sh["a"]
+            if np.abs(dd - ref).max() > 1e-9 * max(1.0, np.abs(ref).max()):
+                add(f"C06:tree-op:applied-vector:{algo}", f"{tag} operator {oname} on sector {sec}: O|psi> differs from the dense product")
+            if np.linalg.norm(ref) < 1e-12:
+                continue
+            if np.any(np.asarray(out.qntot) != want):
+                add(f"C06:tree-op:applied-qntot:{algo}", f"{tag} operator {oname} on sector {sec}: result labelled {np.asarray(out.qntot).tolist()}, expected {want.tolist()}")
+            if np.linalg.norm(dd[~mask]) > 1e-10 * np.linalg.norm(dd):
+                add(f"C06:tree-op:applied-outside-sector:{algo}", f"{tag} operator {oname} on sector {sec}: amplitude outside sector {want.tolist()}")
+            v, where = tree_label_violation(out, lambda node, t=out: t.tn2bn[node].basis_sets)
+            if v > 1e-10:
+                add(f"C06:tree-op:applied-label:{algo}", f"{tag} operator {oname} on sector {sec}: entry of relative size {v:.2e} in a block the stored labels forbid, {where}")
+            else:
+                # the labels must also survive a gauge sweep and a lossless truncation (they select the blocks there)
+                try:
+                    o2 = TR.clone_ttns(out)
+                    o2.canonicalise()
+                    if len(desc["parent"]) > 1:          # a single node has no bond to truncate (the library refuses)
+                        C11.lossless(o2)
+                        o2.compress()
+                    d2 = TR.dense_state(o2, c.order)
+                    if np.abs(d2 - ref).max() > 1e-8 * max(1.0, np.abs(ref).max()):
+                        add(f"C06:tree-op:applied-then-swept:{algo}", f"{tag} operator {oname} on sector {sec}: O|psi> changes under a gauge sweep + lossless truncation")
+                except Exception as e:
+                    add(f"C06:tree-op:sweep-exception:{type(e).__name__}:{algo}", f"{tag} operator {oname} on sector {sec}: {e!r}")
+    return {"nontrivial": napplied > 0, "viol": list(viol.values()), "counters": {"tree_operators_applied": napplied}, "outcome": "tree-op:viol" if viol else "tree-op:ok",
+            "sample": {"desc": desc, "applied": napplied}}
 
 
 LABEL_FRAMES_TREE = {"get_qnmat", "get_qnmask", "svd_qn", "eigh_qn", "get_qn_mask", "add_outer", "compress_node", "decompose_to_parent", "decompose_to_child",
